@@ -133,6 +133,51 @@ def optDict (a : Json) (k : String) : Except String (Option Dict) := do
     | .obj kvs => return some kvs
     | _ => throw "expected a dict"
 
+/-- a query description `{kind, name, task, optype, stype, ps?, sched?}` -/
+def parseQKind (a : Json) : Except String QKind := do
+  let kind ← a.getObjValAs? String "kind"
+  if kind == "calc" then
+    let sched ← (← getArr a "sched").mapM parseTask
+    return .results sched
+  let q : Query := ⟨← getStr a "name", ← getOptStr a "task", ← getOptStr a "optype", ← parseStype a "stype"⟩
+  match kind with
+  | "get" => return .get q
+  | "stats" => return .stats q
+  | "mean" => return .mean q
+  | "median" => return .median q
+  | "percentiles" => return .pcts q (← parseRats a "ps")
+  | "unit" => return .unit q.name q.task q.opType
+  | "error_rate" => match q.task with
+    | some t => return .errRate t q.opType q.stype
+    | none => throw "error_rate needs a task"
+  | "duration" => match q.task with
+    | some t => return .duration t
+    | none => throw "duration needs a task"
+  | _ => throw s!"unknown query kind {kind}"
+
+def ansJ : Ans → Json
+  | .vals vs => arr (vs.map ratStr)
+  | .stats none => Json.null
+  | .stats (some st) => Json.mkObj [("count", toJson st.count), ("min", ratStr st.min), ("max", ratStr st.max), ("avg", ratStr st.avg)]
+  | .num o => optRatJ o
+  | .pcts r => arr (r.map (fun pv => arr [ratStr pv.1, ratStr pv.2]))
+  | .unit u => optStr u
+  | .rate q => ratStr q
+  | .ops r => arr (r.map opJ)
+
+def resJ : Except Err Ans → Json
+  | .ok a => Json.mkObj [("r", ansJ a)]
+  | .error e => Json.mkObj [("err", Json.str (errName e))]
+
+def parseEv (j : Json) : Except String SEv := do
+  let e ← j.getObjValAs? String "e"
+  match e with
+  | "put" => return .put (← parseRec (← j.getObjVal? "rec"))
+  | "bulk" => return .bulk (← (← getArr j "recs").mapM parseRec)
+  | "query" => return .query (← parseQKind (← j.getObjVal? "q"))
+  | "handover" => return .handover (← getBool j "clear") (← parseQKind (← j.getObjVal? "q"))
+  | _ => throw s!"unknown event {e}"
+
 def handle (op : String) (a : Json) : Except String Json := do
   match op with
   | "percentile" =>
@@ -188,6 +233,12 @@ def handle (op : String) (a : Json) : Except String Json := do
   | "readback" =>
     let d ← optDict a "results"
     return ok (ofJVal (.obj (readBack RallyGen.StatsKeys.table d)))
+  | "history" =>
+    -- one store object: deliveries, hand-overs and queries in order; answers in order
+    let evs ← (← getArr a "events").mapM parseEv
+    let answers := runHist RallyGen.Percentiles.table [] evs
+    let nclear := (evs.filter SEv.clears).length
+    return ok (arr (answers.map resJ)) [s!"clears:{nclear}", s!"final-docs:{bucket (stateAfter [] evs).length}"]
   | "lookup" =>
     -- GlobalStats({"op_metrics": ops}).tasks() / .metrics(task)
     let ops ← match ← toJVal ((a.getObjVal? "ops").toOption.getD Json.null) with
